@@ -370,7 +370,7 @@ pub fn run(ctx: &Ctx) -> &'static str {
     ctx.explore(
         "trace",
         "timed traces on 2..3 real links of selects (real select_connection_idx), in-flight load/drain, inbound, earned ACKs, keepalive echoes, RTT baselines none/20..2500 ms, resets, disconnects, guard on/off, every threshold/ceiling incl. ceiling below the floor; blocks of ops repeated 1..14 times so sustained-proof runs occur; non-trivial = a latch engaged and a release attempt (fresh proof while latched) happened",
-        ctx.tier.pick(30_000, 600_000),
+        ctx.tier.pick(150_000, 1_500_000),
         || strategy(mb),
         |_| check,
     );
